@@ -6,7 +6,7 @@ From SV.Num Require Import RangeGen.
 From SV.Num Require Import Dec IntParse NumGrammar Range IntPrint RangeProofs IntParseProofs NumGrammarProofs
   SkipNumberProofs IntPrintProofs IntPrintExact FloatCheck FloatSpec FloatCheckProofs FloatCheckSound
   FloatInterval ShortestSound FloatComplete ShortestComplete
-  FloatFmt FloatFmtProofs WriteDecDenotes FloatFmt32Proofs VNumber Api Refuted.
+  FloatFmt FloatFmtProofs WriteDecDenotes FloatFmt32Proofs WriteDecGrammar FloatShortcut VNumber VNumberScan VNumberLiteral Api Refuted.
 Import ListNotations.
 Open Scope Z_scope.
 
@@ -295,6 +295,100 @@ Example C19_write_dec_examples :
   write_dec_f64 1 (-7) = [49;101;45;55]%N /\                          (* 1e-7 *)
   write_dec_f64 15 (-1) = [49;46;53]%N /\ write_dec_f64 12345 (-12) = [49;46;50;51;52;53;101;45;56]%N.
 Proof. repeat split; reflexivity. Qed.
+
+(* ---- the printed float text is always a JSON number (link to C04: Marshal's float output is well formed) ----
+   for every (sig, exp) the shortest-digits search can return, write_dec's text - with or without the leading minus
+   that f64toa/f32toa emit - is in the grammar, IsValidNumber accepts it and skip_number skips exactly it *)
+Theorem C19_write_dec_f64_json_number : forall sig exp, 1 <= sig < 10 ^ 17 ->
+  -1000 < ctz10 sig + exp - 1 < 1000 -> unsigned_number (write_dec_f64 sig exp).
+Proof. exact write_dec_f64_json_number. Qed.
+Print Assumptions C19_write_dec_f64_json_number.
+
+Theorem C19_write_dec_f32_json_number : forall sig exp, 1 <= sig < 10 ^ 9 ->
+  -1000 < ctz10_u32 sig + exp - 1 < 1000 -> unsigned_number (write_dec_f32 sig exp).
+Proof. exact write_dec_f32_json_number. Qed.
+Print Assumptions C19_write_dec_f32_json_number.
+
+Theorem C19_float_text_accepted : forall (t : list N) (neg : bool) (pre rest : list N), unsigned_number t -> terminated rest ->
+  let text := if neg then c_minus :: t else t in
+  json_number text /\ is_valid_number text = true /\
+  skip_number (pre ++ text ++ rest) (length pre) = (Z.of_nat (length pre), Z.of_nat (length pre) + Z.of_nat (length text)).
+Proof. exact float_text_accepted. Qed.
+Print Assumptions C19_float_text_accepted.
+
+(* ---- the checkers without the exponent window (float64 and float32): the shortcut of rne_dec for decimal
+   exponents beyond +-400 is sound (infinite resp. zero), so nearest_check is sound and complete for EVERY literal *)
+Theorem C19_rne_dec_sound_all : forall f m e, std_fmt f -> 0 <= m ->
+  let '(N, D) := scaled_dec f m e in rounds_to_spec f N D (rne_dec f m e).
+Proof. exact rne_dec_sound_all. Qed.
+Print Assumptions C19_rne_dec_sound_all.
+
+Theorem C19_nearest_check_sound_all : forall f lit inf bits, std_fmt f ->
+  let v := lit_decode lit in
+  nearest_check f lit inf bits = true ->
+  let '(N, D) := scaled_dec f (lv_man v) (lv_exp v) in
+  if inf then rounds_to_spec f N D RInf
+  else exists k b, bits = b + (if lv_neg v then sign_bit f else 0) /\ 0 <= b /\
+                   k_of_bits f b = Some k /\ rounds_to_spec f N D (RFin k).
+Proof. exact nearest_check_sound_all. Qed.
+Print Assumptions C19_nearest_check_sound_all.
+
+Theorem C19_nearest_check_complete_all : forall f lit inf bits, std_fmt f ->
+  let v := lit_decode lit in
+  (let '(N, D) := scaled_dec f (lv_man v) (lv_exp v) in
+   match inf return Prop with
+   | true => rounds_to_spec f N D RInf
+   | false => exists k b, bits = b + (if lv_neg v then sign_bit f else 0) /\ 0 <= b /\
+                          k_of_bits f b = Some k /\ rounds_to_spec f N D (RFin k)
+   end) ->
+  nearest_check f lit inf bits = true.
+Proof. exact nearest_check_complete_all. Qed.
+Print Assumptions C19_nearest_check_complete_all.
+
+Example C19_std_formats : std_fmt f64 /\ std_fmt f32.
+Proof. split; [exact std_f64|exact std_f32]. Qed.
+
+(* ---- vnumber's scanning part: the input contract of atof_fast / Eisel-Lemire ---------------------------------
+   for every number literal  ip [. fp] [e [+-] ed]  (exponent digits < 10000) followed by a byte that cannot
+   continue a number: the scan ends at the end of the literal, reports '.'/exponent correctly, and its triple
+   (man, exp10, trunc) brackets the literal's exact value  lv_man * 10^lv_exp :
+       man * 10^q <= lv_man < (man + 1) * 10^q,  exp10 = lv_exp + q,
+   with q = 0 (exact) when trunc = false, and a full 19-digit mantissa when trunc = true *)
+Theorem C19_vnumber_scan_denotes : forall ip dot ex rest i0 n,
+  int_part ip ->
+  match dot with Some fp => digits1 fp | None => True end ->
+  match ex with Some (_, ed) => digits1 ed /\ dec_val ed < 10000 | None => True end ->
+  terminated rest ->
+  exists sc q, vnumber_scan (shape ip dot ex ++ rest) i0 n = inr sc /\ 0 <= q /\
+    let v := lit_decode (shape ip dot ex) in
+    sc_end sc = (i0 + length (shape ip dot ex))%nat /\
+    sc_dbl sc = is_some dot /\ sc_exp sc = is_some ex /\
+    sc_man sc * 10 ^ q <= lv_man v < (sc_man sc + 1) * 10 ^ q /\
+    sc_exp10 sc = lv_exp v + q /\
+    (sc_trunc sc = false -> q = 0) /\
+    (sc_trunc sc = true -> 10 ^ 18 <= sc_man sc < 10 ^ 19).
+Proof. exact vnumber_scan_denotes. Qed.
+Print Assumptions C19_vnumber_scan_denotes.
+
+(* the whole model of vnumber_1 on a literal (optional minus, any following terminator, any out-of-bounds byte):
+   it answers V_INTEGER exactly for integer literals inside int64, with the exact value and end position; every
+   other literal is handed to the float conversion (float_result = the correctly rounded double / -ERR_FLOAT_INF
+   of the specification; the running code is compared with it per input, see the refuted clause for "-0") *)
+Theorem C19_vnumber_on_literal : forall (neg : bool) ip dot ex rest oob,
+  int_part ip ->
+  match dot with Some fp => digits1 fp | None => True end ->
+  match ex with Some (_, ed) => digits1 ed /\ dec_val ed < 10000 | None => True end ->
+  terminated rest ->
+  let u := shape ip dot ex in
+  let lit := if neg then c_minus :: u else u in
+  let s := lit ++ rest in
+  let r := vnumber s oob 0 in
+  let is_int := negb (is_some dot) && negb (is_some ex) in
+  (is_int = true -> in_i64_lit neg (dec_val ip) ->
+     n_vt r = V_INTEGER /\ n_p r = length lit /\ n_iv r = (if neg then - dec_val ip else dec_val ip)) /\
+  ((is_int = false \/ ~ in_i64_lit neg (dec_val ip)) -> r = float_result s 0 (length lit)).
+Proof. exact vnumber_on_literal. Qed.
+Print Assumptions C19_vnumber_on_literal.
 
 (* ---- refuted clauses (the pinned code violates the property; witnesses replayed in the correspondence run,
    recorded as KF-C19-negzero-literal and KF-C19-f32-double-rounding) ---------------------------------------- *)
